@@ -1,21 +1,19 @@
 #!/bin/sh
 # MANIFEST.setup_cmd: build the framework from files on disk only (offline).
+# Builds, for every property claimed in MANIFEST.json: its fact extractor (and the generated
+# Lean facts from /repo's working tree), its Props module (all proofs) and its judge executable.
 set -e
 cd "$(dirname "$0")/.."
 export GOFLAGS=-mod=mod GOPROXY=off GOSUMDB=off GOTOOLCHAIN=local
 mkdir -p build evidence replays
-# facts first (generated Lean modules are not committed)
-for f in harness/factextract/facts_c*.go; do
-  [ -e "$f" ] || continue
-  id=$(basename "$f" .go | sed 's/facts_\(c[0-9]*\).*/\1/' | tr a-z A-Z)
-  if [ ! -x build/factextract_$id ]; then
-    (cd harness/factextract && go build -o ../../build/factextract_$id main.go $(ls facts_$(echo $id | tr A-Z a-z)*.go))
-  fi
-  build/factextract_$id -repo /repo -out lean/EgVerif/Gen
-done
+ids=$(python3 -c "import json;print(' '.join(c['property_id'] for c in json.load(open('MANIFEST.json'))['checks']))")
 targets=""
-for p in props/C*.json; do
-  id=$(basename "$p" .json)
+for id in $ids; do
+  lid=$(echo $id | tr A-Z a-z)
+  if ls harness/factextract/facts_${lid}*.go >/dev/null 2>&1; then
+    (cd harness/factextract && go build -o ../../build/factextract_$id main.go $(ls facts_${lid}*.go))
+    build/factextract_$id -repo /repo -out lean/EgVerif/Gen
+  fi
   targets="$targets EgVerif.Props.$id egjudge-$id"
 done
 bin/lk build EgVerif $targets
